@@ -1,6 +1,8 @@
 import BufModel.Parallel
 import BufModel.Filter
 import BufModel.Targeting
+import BufModel.MultiFail
+import BufModel.MultiClient
 import Driver.Util
 /-
   Line protocol for C02:
@@ -15,6 +17,14 @@ import Driver.Util
             then the ones gained through public imports ascending), csv | -
     twalk <module files, hex paths csv> <target paths hex csv|-> <exclude paths hex csv|->  (overlap family)
          -> walk=<files in the order moduleReadBucket.WalkFileInfos(only target files) reports them>|ls=<sorted target list | err/class>
+    mfail <modules> <root>     (multi-failure family)  -> ok:<dep rank>/<direct 0|1>,… | ok:- | err:<id>
+    mfdag <modules>            -> ok | err:<id>      (ModuleSetToDAG; all modules are targets)
+         <modules> = the modules in OpaqueID order joined by `;`, a module = its files in the order the
+         walk of THIS run reported them joined by `,` (`-` = no file), a file = <hex path>:<p|x|d>:<hex imports joined by + | ->
+         (p = .proto, x = .proto the import scan cannot parse, d = documentation file)
+         <id> = cycle:<rank>rank>…  noimport:<hex file>:<hex import>  noproto:<rank>  parse:<hex file>  dup:<hex path>  fuel
+    mcheck <parallelism> <outcome per client in config order: f|s|n> <clients in the order they finished csv|->  (multi-client family)
+         -> err=<the clients whose errors the combined error lists, in order; csv | ->|ran=<clients that run, sorted csv | ->
 -/
 namespace Driver.C02
 open BufModel.Parallel Driver
@@ -43,6 +53,42 @@ def rdep (f : Nat) (deps req : List Nat) : List Nat :=
 def twalkWs (files paths excludes : List BufModel.Path.Str) : BufModel.Targeting.TWS :=
   { ws := { mods := [{ files := files.map fun p => { path := p, imports := [] }, isTarget := true, isLocal := true }], wkt := [] },
     cfgs := [{ paths := paths, excludes := excludes }] }
+
+/-- `<hex path>:<p|x|d>:<imports>` -/
+def mfFile (s : String) : Option (BufModel.Path.Str × Char × List BufModel.Path.Str) :=
+  match s.splitOn ":" with
+  | [p, k, is] =>
+    match hexDecode p, k.toList, (if is = "-" then some [] else (is.splitOn "+").mapM fun h => (hexDecode h).map String.toList) with
+    | some p, [c], some is => some (p.toList, c, is)
+    | _, _, _ => none
+  | _ => none
+
+def mfWs (s : String) : Option BufModel.MultiFail.MFWS :=
+  let mods := (s.splitOn ";").mapM fun ms =>
+    if ms = "-" then some [] else (ms.splitOn ",").mapM mfFile
+  mods.map fun mods =>
+    let idx := (List.range mods.length).zip mods
+    { ws := { mods := mods.map fun fs =>
+                { files := (fs.filter fun f => f.2.1 != 'd').map fun f => { path := f.1, imports := f.2.2 },
+                  isTarget := true, isLocal := true },
+              wkt := [] },
+      broken := idx.flatMap fun (m, fs) => (fs.filter fun f => f.2.1 == 'x').map fun f => (m, f.1),
+      docs := idx.flatMap fun (m, fs) => (fs.filter fun f => f.2.1 == 'd').map fun f => (m, f.1) }
+
+def showMFErr : BufModel.MultiFail.MFErr → String
+  | .cycle p => "cycle:" ++ ">".intercalate (p.map toString)
+  | .importNotExist f i => "noimport:" ++ enc (String.ofList f) ++ ":" ++ enc (String.ofList i)
+  | .dupPath p => "dup:" ++ enc (String.ofList p)
+  | .noProtoFiles m => "noproto:" ++ toString m
+  | .parse f => "parse:" ++ enc (String.ofList f)
+  | .fuel => "fuel"
+
+def mcOutcomes (s : String) : Option (List BufModel.MultiClient.Outcome) :=
+  s.toList.mapM fun
+    | 'f' => some .fails
+    | 's' => some .ok
+    | 'n' => some .noRule
+    | _ => none
 
 def bits (s : String) : List Bool := if s = "-" then [] else s.toList.map (· == '1')
 
@@ -94,6 +140,31 @@ def handle : List String → String
         | .ok l => showPaths l
         | .error e => "err/" ++ e.tag
       "walk=" ++ showPaths walk ++ "|ls=" ++ ls
+    | _, _, _ => "bad-op"
+  | ["mfail", ms, r] =>
+    match mfWs ms, r.toNat? with
+    | some t, some r =>
+      match BufModel.MultiFail.moduleDepsE t r with
+      | .ok ds => "ok:" ++ (if ds.isEmpty then "-" else ",".intercalate (ds.map fun d => toString d.1 ++ "/" ++ (if d.2 then "1" else "0")))
+      | .error e => "err:" ++ showMFErr e
+    | _, _ => "bad-op"
+  | ["mfdag", ms] =>
+    match mfWs ms with
+    | some t =>
+      match BufModel.MultiFail.toDAGE t with
+      | .ok _ => "ok"
+      | .error e => "err:" ++ showMFErr e
+    | none => "bad-op"
+  | ["mcheck", ps, os, fs] =>
+    match ps.toNat?, mcOutcomes os, natCsv fs with
+    | some _, some os, some fin =>
+      let items := BufModel.MultiClient.checkErr os fin
+      let showItem : BufModel.MultiClient.MCItem → String
+        | .client i => toString i
+        | .ctx => "ctx"
+        | .cancelled i => "x" ++ toString i
+      "err=" ++ (if items.isEmpty then "-" else ",".intercalate (items.map showItem)) ++
+        "|ran=" ++ showNats (BufModel.MultiClient.mustRun os)
     | _, _, _ => "bad-op"
   | _ => "bad-op"
 
